@@ -84,6 +84,9 @@ def gen_case(r):
         for li in range(nl - 1):
             if r.random() < 0.15:
                 levels[li] = [levels[li][0], r.choice(['Shown', 'Zed']) + levels[li][0]]
+        if ties and r.random() < 0.25:
+            # formulas as display part under one sort key: their text content is empty, so the collation keys of the display parts tie
+            levels[-1] = [r.choice(['0', 'arrow']), 'MATH:' + r.choice(['to', 'in', 'alpha'])]
         fmt = None
         k = r.random()
         if k < 0.1:
@@ -92,7 +95,7 @@ def gen_case(r):
             fmt = ['textbf']
         elif k < 0.25:
             fmt = ['emph']
-        quoted = r.random() < 0.08
+        quoted = r.random() < 0.08 and not levels[-1][1].startswith('MATH:')
         entries.append({'levels': levels, 'fmt': fmt, 'quoted': quoted})
     return entries
 
@@ -101,6 +104,8 @@ def print_entry(e):
     parts = []
     for i, (sort, disp) in enumerate(e['levels']):
         s, d = tex_escape(sort), tex_escape(disp)
+        if disp.startswith('MATH:'):
+            d = '$\\%s$' % disp[5:]
         if e['quoted'] and i == len(e['levels']) - 1:
             # a quoted special character inside the key: "! is a literal !
             d = d + '"!q'
@@ -169,9 +174,22 @@ def model(entries, collate, unidecode):
 
     def order(node):
         kids = list(node['kids'].values())
-        kids.sort(key=lambda k: (collate(k['sort']), collate(k['disp'])))
+        kids.sort(key=lambda k: (collate(k['sort']), collate(shown_text(k['disp']))))
         return [{'sort': k['sort'], 'disp': k['disp'], 'occ': k['occ'], 'kids': order(k)} for k in kids]
     return order(root)
+
+
+def shown_text(disp):
+    """the text content of a display part (a formula has none)"""
+    return '' if disp.startswith('MATH:') else disp
+
+
+def disp_of(key):
+    maths = key.getElementsByTagName('math') if hasattr(key, 'getElementsByTagName') else []
+    if maths:
+        inner = [c.nodeName for c in maths[0].childNodes if c.nodeType == 1]
+        return 'MATH:' + (inner[0] if inner else '?')
+    return str(key.textContent)
 
 
 def observed(node, ordinal):
@@ -179,7 +197,7 @@ def observed(node, ordinal):
     for c in node.childNodes:
         if c.nodeType != 1 or not hasattr(c, 'pages'):
             continue
-        out.append({'sort': str(c.sortkey), 'disp': str(c.key.textContent), 'occ': [ordinal.get(id(p._cr_node), -1) for p in c.pages], 'kids': observed(c, ordinal), 'node': c})
+        out.append({'sort': str(c.sortkey), 'disp': disp_of(c.key), 'occ': [ordinal.get(id(p._cr_node), -1) for p in c.pages], 'kids': observed(c, ordinal), 'node': c})
     return out
 
 
@@ -191,9 +209,9 @@ def canon_ties(t, collate):
     """siblings whose collation keys tie are not ordered by the statement: put every maximal run of them into one fixed order"""
     out, i = [], 0
     while i < len(t):
-        k = (collate(t[i]['sort']), collate(t[i]['disp']))
+        k = (collate(t[i]['sort']), collate(shown_text(t[i]['disp'])))
         j = i
-        while j < len(t) and (collate(t[j]['sort']), collate(t[j]['disp'])) == k:
+        while j < len(t) and (collate(t[j]['sort']), collate(shown_text(t[j]['disp']))) == k:
             j += 1
         out.extend(sorted(t[i:j], key=lambda x: (x['sort'], x['disp'])))
         i = j
@@ -371,7 +389,7 @@ def rendered_index(case, exp, st):
             return ('tree-shape', 'under %r: the page lists %r, the entries name %r' % (path or '(top)', [key_of(x) for x in o], [x['disp'] for x in e]))
         for a, b in zip(e, o):
             st.counters['rendered_entries_compared'] += 1
-            if not key_of(b).startswith(norm(a['disp'])[:40]) and norm(a['disp']) not in norm(b['text']):
+            if not a['disp'].startswith('MATH:') and not key_of(b).startswith(norm(a['disp'])[:40]) and norm(a['disp']) not in norm(b['text']):
                 return ('order-or-keys', 'under %r: the page lists %r, expected %r' % (path or '(top)', [key_of(x) for x in o], [x['disp'] for x in e]))
             if b['links'] != len(a['occ']):
                 return ('page-references', 'entry %r: %d page links on the page, %d occurrences in the document' % (path + '!' + a['disp'], b['links'], len(a['occ'])))
